@@ -59,6 +59,26 @@ theorem assign_is_min_cut {n : Nat} {c r : Fin n → Fin n → ℤ} {s t : Fin n
     (∀ S' : Finset (Fin n), s ∈ S' → t ∉ S' → cutCap c A ≤ cutCap c S') :=
   closure_is_min_cut h hc A hA ht
 
+/-- non-vacuity: the saturated two-node network 0 →(3) 1; the closure of 0 is {0} -/
+def exC : Fin 2 → Fin 2 → ℤ := fun u v => if u = 0 ∧ v = 1 then 3 else 0
+def exR : Fin 2 → Fin 2 → ℤ := fun u v => if u = 1 ∧ v = 0 then 3 else 0
+theorem exR_reach (v : Fin 2) : Reach exR 0 v ↔ v = 0 := by
+  constructor
+  · intro h
+    induction h with
+    | refl => rfl
+    | @step u w _ hpos ih =>
+      subst ih
+      exfalso; revert hpos; revert w; decide
+  · intro h; subst h; exact Reach.refl
+
+example : (0 : Fin 2) ∈ ({0} : Finset (Fin 2)) ∧ (1 : Fin 2) ∉ ({0} : Finset (Fin 2)) ∧
+    cutCap exC {0} = value (resFlow exC exR) 0 ∧ IsMaxFlowValue exC 0 1 (value (resFlow exC exR) 0) := by
+  have key : ∀ u : Fin 2, u ≠ 0 → u ≠ 1 → False := by decide
+  have h := assign_is_min_cut (c := exC) (r := exR) (s := 0) (t := 1) ⟨by decide, by decide⟩
+    (fun u h0 h1 => (key u h0 h1).elim) {0} (fun v => by rw [exR_reach]; simp) (by decide)
+  exact ⟨h.1, h.2.1, h.2.2.1, h.2.2.2.1⟩
+
 /-- **assign_minimal**: the closure is contained in the source side of every minimum cut -/
 theorem assign_minimal {n : Nat} {c r : Fin n → Fin n → ℤ} {s t : Fin n} (h : ResInv c r)
     (hc : Conserved c r s t) (A : Finset (Fin n)) (hA : ∀ v, v ∈ A ↔ Reach r s v)
